@@ -64,6 +64,7 @@ class PathView:
         self.atoms = p.atoms
         self.trace = p.trace
         self.ret = p.ret
+        self.events = list(p.events)
         self.mem = {}
         self.written = {}
         self.read = {}
